@@ -562,24 +562,43 @@ func ruleC38(c *Ctx) {
 		}
 		c.Require("order", fname(pv)+": the block-gas test precedes the UTXO-view update", okg, "ApplyTransaction dominated by gasLeft − GasUsed ≥ 0")
 		// success result appended only after ApplyTransaction succeeded
-		oka := false
+		// a success result is a validateTxResult literal whose err is left zero or may be nil where it is
+		// stored; an err known to be non-nil there marks a failure result
+		oka, nSucc, dSucc := true, 0, "success result behind ApplyTransaction == nil"
 		for _, b := range pv.Blocks {
 			for _, in := range b.Instrs {
-				st, ok := in.(*ssa.Store)
+				al, ok := in.(*ssa.Alloc)
 				if !ok {
 					continue
 				}
-				if _, fld, isF := fieldOf(st.Addr); isF && fld == "err" {
-					if !mentions(st.Val, callsKey("(*protocol/validation.ValidateTxResult).GetError"), 3, nil) {
-						continue
+				pt, isP := al.Type().Underlying().(*types.Pointer)
+				if !isP || trimMod(pt.Elem().String()) != "proposal.validateTxResult" {
+					continue
+				}
+				var errStore *ssa.Store
+				for _, r := range *al.Referrers() {
+					if fa, isFA := r.(*ssa.FieldAddr); isFA {
+						if _, fld, isF := fieldOf(fa); isF && fld == "err" {
+							for _, r2 := range *fa.Referrers() {
+								if st, isSt := r2.(*ssa.Store); isSt && st.Addr == ssa.Value(fa) {
+									errStore = st
+								}
+							}
+						}
 					}
-					if factsAt(st)["call:"+ap+" == nil"] {
-						oka = true
-					}
+				}
+				if errStore != nil && !isNilConst(errStore.Val) && !mayBeNilErr(errStore.Val, errStore.Block(), nil) {
+					continue // failure result: the stored error is known to be non-nil there
+				}
+				nSucc++
+				if !factsAt(al)["call:"+ap+" == nil"] {
+					oka = false
+					dSucc = "success result built at " + c.Pos(al.Pos()) + " without ApplyTransaction == nil"
 				}
 			}
 		}
-		c.Require("facts", fname(pv)+": a transaction is reported usable only after it was applied to the view", oka, "success result behind ApplyTransaction == nil")
+		oka = oka && nSucc >= 1
+		c.Require("facts", fname(pv)+": a transaction is reported usable only after it was applied to the view", oka, "%s (%d success result literal(s))", dSucc, nSucc)
 		okc := false
 		for _, s := range callsTo(pv, false, pVal+".ValidateTxs") {
 			okc = mentions(s.Common().Args[2], func(v ssa.Value) bool { f, ok := v.(*ssa.Function); return ok && f.Name() == "ProgramConverter" || strings.Contains(v.String(), "ProgramConverter") }, 4, nil)
